@@ -34,7 +34,7 @@ theorem memRead_frame (s : St) {tag i addr len : Nat} (he : (Ev.read tag i addr 
   rw [memRead_eq s he]
   split
   · exact frame_quiet s i _
-  · exact ⟨fun j hj => ⟨dget?_dset_other _ _ hj, rfl⟩, by simpa [Out.About] using readReqBytes_head i _ _ he.1⟩
+  · exact ⟨fun j hj => ⟨dget?_dset_other _ _ hj, rfl⟩, by simpa using about_readSend he.1 addr len⟩
 
 theorem memWrite_frame {s : St} (hs : s.Ok) {tag i addr : Nat} {data : List UInt8} {flush p : Bool}
     (he : (Ev.write tag i addr data flush p).WF) :
@@ -48,7 +48,7 @@ theorem memWrite_frame {s : St} (hs : s.Ok) {tag i addr : Nat} {data : List UInt
     refine ⟨fun j hj => ⟨rfl, ?_⟩, ?_⟩
     · show dget? (dset (ensureQueue s.writes i) i _) j = _
       rw [dget?_dset_other _ _ hj, dget?_ensureQueue_other _ hj]
-    · simpa [Out.About, hwid] using headBytes_head i _ _ he.1
+    · have := about_writeSend he.1 addr data; simpa [hwid, WReq.new] using this
   · refine ⟨fun j hj => ⟨rfl, ?_⟩, by simp⟩
     show dget? (dset (ensureQueue s.writes i) i _) j = _
     rw [dget?_dset_other _ _ hj, dget?_ensureQueue_other _ hj]
@@ -97,7 +97,7 @@ theorem onReadReply_frame {s : St} (hs : s.Ok) (id addr status : Nat) (data : Li
     · split
       · exact ⟨fun j hj => ⟨hset _ j hj, rfl⟩, by simp⟩
       · split
-        · exact ⟨fun j hj => ⟨hset _ j hj, rfl⟩, by simpa [Out.About] using readReqBytes_head id _ _ hok.2.1⟩
+        · exact ⟨fun j hj => ⟨hset _ j hj, rfl⟩, by simpa using about_readSend hok.2.1 _ _⟩
         · exact ⟨fun j hj => ⟨hera j hj, rfl⟩, by simp [Out.About]⟩
     · exact ⟨fun j hj => ⟨hera j hj, rfl⟩, by simp [Out.About]⟩
 
@@ -281,7 +281,7 @@ theorem feed_frame {k id : Nat} (hk : k < 256) (hid : id < 256) (hne : k ≠ id)
     cases o with
     | send c d =>
       simp only [feed]
-      obtain ⟨h1, h2⟩ := devHandle_frame dev (faults.headD 0) c d ho hb
+      obtain ⟨h1, h2⟩ := devHandle_frame dev (faults.headD 0) c d ho.1 hb
       obtain ⟨h3, extra, h4, h5⟩ := ih' (devHandle dev (faults.headD 0) c d).1 faults.tail
         (net ++ (devHandle dev (faults.headD 0) c d).2)
       refine ⟨h3.trans h1, (devHandle dev (faults.headD 0) c d).2 ++ extra, by rw [h4, List.append_assoc], ?_⟩
@@ -381,5 +381,49 @@ theorem runSys_project (y : Sys) (acts : List Act) (hwf : ∀ a ∈ acts, a.WF) 
         have e2 : (a :: as).filterMap Act.tag? = [a].filterMap Act.tag? ++ as.filterMap Act.tag? := by
           rw [← List.filterMap_append]; rfl
         rw [e1, e2, (toEv_accW hev 0).2, h5]
+
+
+/-! ### every packet handed to the link respects the limits -/
+
+def Out.Fits : Out → Prop
+  | .send c d => d.length ≤ Gen.C06.maxDataSize ∧
+      (c = Gen.C06.chanWrite → d.length ≤ 5 + Gen.C06.writeMax) ∧
+      (c = Gen.C06.chanRead → d.length = 6 ∧ ∀ n, d[5]? = some n → n.toNat ≤ Gen.C06.readMax) ∧
+      (c = Gen.C06.chanRead ∨ c = Gen.C06.chanWrite)
+  | _ => True
+
+theorem step_fits {s : St} (hs : s.Ok) {e : Ev} (he : e.WF) : ∀ o ∈ (step Variant.fixed s e).outs, o.Fits := by
+  intro o ho
+  cases hk : e.about? with
+  | some k =>
+    have := (step_frame hs he hk).2 o ho
+    cases o with
+    | send c d => exact this.2
+    | _ => trivial
+  | none =>
+    cases e with
+    | read _ _ _ _ => cases hk
+    | write _ _ _ _ _ _ => cases hk
+    | pkt c d =>
+      cases d with
+      | nil => simp [step, newPacketCb] at ho
+      | cons _ _ => cases hk
+    | disconnect =>
+      obtain ⟨_, _, _, _⟩ := disconnected_effect hs (r := disconnected s) rfl
+      simp only [step, disconnected, hs.lock, Bool.false_eq_true, ↓reduceIte] at ho
+      rcases List.mem_append.1 ho with ho | ho
+      · obtain ⟨x, _, rfl⟩ := List.mem_map.1 ho; trivial
+      · obtain ⟨x, _, rfl⟩ := List.mem_map.1 ho; trivial
+
+theorem run_fits {s : St} (hs : s.Ok) {evs : List Ev} (hwf : ∀ e ∈ evs, e.WF) :
+    ∀ o ∈ (run Variant.fixed s evs).2, o.Fits := by
+  induction evs generalizing s with
+  | nil => intro o ho; cases ho
+  | cons e es ih =>
+    intro o ho
+    rw [run_cons] at ho
+    rcases List.mem_append.1 ho with ho | ho
+    · exact step_fits hs (hwf e (by simp)) o ho
+    · exact ih (step_effect hs (hwf e (by simp))).1 (fun x hx => hwf x (List.mem_cons_of_mem _ hx)) o ho
 
 end CfVerif.C06
